@@ -15,7 +15,8 @@
 From Apko Require Import Base.Prelude Base.Regex Generated.Regexes Generated.IndexConsts Generated.IndexShapes
   Model.Index Spec.IndexSpec Proofs.IndexProofs Model.IndexCache Proofs.IndexCacheProofs
   Model.IndexBytes Spec.IndexBytesSpec Proofs.IndexBytesProofs Model.IndexVctx Proofs.IndexVctxProofs
-  Model.IndexWiring Model.IndexCacheFiles Spec.IndexHistSpec Proofs.IndexHistProofs.
+  Model.IndexWiring Model.IndexCacheFiles Spec.IndexHistSpec Proofs.IndexHistProofs
+  Model.IndexRsa Proofs.IndexRsaProofs.
 Open Scope string_scope. Open Scope list_scope.
 
 (* With checking on, an accepted archive carries, in its first member, an entry
@@ -563,3 +564,66 @@ Example c04_local_rewrites_example :
       EvRewrite 0%nat {| fv_id := 3%nat; fv_signer := Some "alice"; fv_mtime := 30%N; fv_parses := true |}; EvCall c [] ]
   = [AnsRewrite; AnsCall false [(0%nat, 1%nat)]; AnsRewrite; AnsCall true []; AnsCall true []; AnsRewrite; AnsCall false [(0%nat, 3%nat)]].
 Proof. vm_compute. reflexivity. Qed.
+
+(* ---- RSAVerifyDigest in stages (final round) -------------------------------------------------
+   The verify oracle of the byte-level model is opened up: Model/IndexRsa.v is the meaning of
+   the statement list goextract reads from signature/rsa.go (digest length, first PEM block,
+   PKIX parse, RSA type assertion, PKCS1v15), the four library calls being universally
+   quantified. A verification succeeds exactly when the digest has the length of its type,
+   the key file's first PEM block is a PKIX RSA public key, and PKCS1v15 accepts under it. *)
+Theorem c04_rsa_verify_stages : forall DER K D digest_fits pem_first_block parse_pkix pkcs1v15 kb a d sig,
+  rsa_verify_digest (list N) DER K D digest_fits pem_first_block parse_pkix pkcs1v15 kb a d sig = true <->
+  digest_fits a d = true /\
+  exists k, pkix_rsa_key (list N) DER K pem_first_block parse_pkix kb = Some k /\ pkcs1v15 k a d sig = true.
+Proof. exact rsa_verify_digest_iff. Qed.
+Print Assumptions c04_rsa_verify_stages.
+
+(* a key file that is not a PKIX RSA key (no PEM block, a first block that is not PKIX DER —
+   a PKCS#1 "RSA PUBLIC KEY" block, junk in front of the genuine block —, an ECDSA key)
+   never verifies anything *)
+Theorem c04_key_file_not_pkix_rsa_never_verifies :
+  forall DER K D digest_fits pem_first_block parse_pkix pkcs1v15 kb,
+  pkix_rsa_key (list N) DER K pem_first_block parse_pkix kb = None ->
+  forall a d sig, rsa_verify_digest (list N) DER K D digest_fits pem_first_block parse_pkix pkcs1v15 kb a d sig = false.
+Proof. exact not_pkix_rsa_never_verifies. Qed.
+Print Assumptions c04_key_file_not_pkix_rsa_never_verifies.
+
+(* parseRepositoryIndex over bytes with RSAVerifyDigest as its verifier: acceptance requires a
+   configured key FILE whose first PEM block is a PKIX RSA public key under which an entry of a
+   verifiable type verifies over the digest (of the right length) of the bytes that are parsed *)
+Theorem c04_accept_requires_pkix_rsa_key :
+  forall DER K D digest_fits pem_first_block parse_pkix pkcs1v15 gz_first tar_entries hash index_of_bytes keys b idx,
+  parse_repository_index_bytes D gz_first tar_entries hash
+    (rsa_verify_digest (list N) DER K D digest_fits pem_first_block parse_pkix pkcs1v15) index_of_bytes true keys b = POk idx ->
+  exists n e t kname kb a k,
+    In (kname, kb) keys /\ e_name e = sig_entry_name t kname /\ supported t = Some a /\
+    pkix_rsa_key (list N) DER K pem_first_block parse_pkix kb = Some k /\
+    digest_fits a (hash a (skipn n b)) = true /\
+    pkcs1v15 k a (hash a (skipn n b)) (e_body e) = true.
+Proof. exact accept_requires_pkix_rsa_key. Qed.
+Print Assumptions c04_accept_requires_pkix_rsa_key.
+
+Theorem c04_no_rsa_key_rejects_everything :
+  forall DER K D digest_fits pem_first_block parse_pkix pkcs1v15 gz_first tar_entries hash index_of_bytes keys,
+  (forall kname kb, In (kname, kb) keys -> pkix_rsa_key (list N) DER K pem_first_block parse_pkix kb = None) ->
+  forall b, parse_repository_index_bytes D gz_first tar_entries hash
+    (rsa_verify_digest (list N) DER K D digest_fits pem_first_block parse_pkix pkcs1v15) index_of_bytes true keys b = PErr.
+Proof. exact no_rsa_key_rejects_everything. Qed.
+Print Assumptions c04_no_rsa_key_rejects_everything.
+
+(* the statement list as read from the source on this run *)
+Theorem c04_rsa_verify_shape : rsa_verify_steps = rsa_verify_steps_expected /\ rsa_steps_known = true.
+Proof. split; reflexivity. Qed.
+Print Assumptions c04_rsa_verify_shape.
+
+(* non-vacuity: a key file with a PKIX RSA key in its first block verifies the right signature;
+   the same key behind a junk first block does not *)
+Example c04_rsa_stages_example :
+  let pem (kb : list N) := match kb with 1%N :: r => Some r | 2%N :: _ => Some [0%N] | _ => None end in
+  let pkix (der : list N) := match der with [7%N] => Some (PubRSA 7%N) | [8%N] => Some PubOther | _ => None end in
+  let pk (k : N) (a : halg) (d : list N) (sg : list N) := N.eqb k 7 && list_eqb N.eqb sg d in
+  rsa_verify_digest (list N) (list N) N (list N) (fun _ _ => true) pem pkix pk [1; 7]%N SHA256 [5]%N [5]%N = true /\
+  rsa_verify_digest (list N) (list N) N (list N) (fun _ _ => true) pem pkix pk [2; 1; 7]%N SHA256 [5]%N [5]%N = false /\
+  rsa_verify_digest (list N) (list N) N (list N) (fun _ _ => true) pem pkix pk [1; 8]%N SHA256 [5]%N [5]%N = false /\
+  pkix_rsa_key (list N) (list N) N pem pkix [9]%N = None.
+Proof. repeat split; vm_compute; reflexivity. Qed.
